@@ -194,7 +194,7 @@ def corr_functions(ctx, drv, rng, tie_bad):
     import gstools as gs
     from gstools.field.generator import Fourier
     from gstools.tools.geometric import generate_grid as gg
-    n_cfg = 250 if ctx.tier == "thorough" else 40
+    n_cfg = 400 if ctx.tier == "thorough" else 120
 
     def bad(what, case, key):
         tie_bad.append(what)
@@ -315,10 +315,108 @@ def corr_functions(ctx, drv, rng, tie_bad):
 
 # ---- correspondence: update histories -----------------------------------------------------------------------
 
+API_OPS = ("period_aug", "period_edit", "period_same", "period_as", "mode_no_edit", "mode_no_same", "mode_no_as")
+
+
+def gen_api_op(rng, dim, allow_odd=True):
+    """the ways a user changes period / mode_no through the public API other than assigning a fresh list: augmented
+    assignment on the property, editing the array / list returned by the getter and assigning it back, re-assigning
+    the same object, numpy arrays / tuples / scalars"""
+    k = API_OPS[int(rng.integers(len(API_OPS)))]
+    if k == "period_aug":
+        return dict(op=k, aug=str(rng.choice(["*=", "/=", "+="])), c=float(rng.choice([1.5, 1.6, 0.75, 2.0, 3.7, float(np.exp(rng.uniform(-1, 1)))])))
+    if k == "period_edit":
+        return dict(op=k, idx=int(rng.integers(dim)), value=float(rng.choice([17.0, 3.3, float(np.exp(rng.uniform(-1, 4)))])))
+    if k == "period_as":
+        return dict(op=k, period=hexl(gen_period(rng, dim)), **{"as": str(rng.choice(["array", "tuple", "scalar", "np_scalar"]))})
+    if k == "mode_no_edit":
+        v = int(2 * rng.integers(1, 9))
+        if allow_odd and rng.random() < 0.1:
+            v += 1
+        return dict(op=k, idx=int(rng.integers(dim)), value=v)
+    if k == "mode_no_as":
+        return dict(op=k, mode_no=gen_mode_no(rng, dim, big=False), **{"as": str(rng.choice(["array", "tuple", "scalar"]))})
+    return dict(op=k)
+
+
+def do_api_op(gen, op):
+    """perform one API-style operation on the implementation (gen is a Fourier generator, possibly srf.generator);
+    returns what the model sees: the value an in-place edit left in the stored period / mode_no (or None) and the
+    value finally assigned (or None).  The expected values are computed from COPIES taken before the operation."""
+    k = op["op"]
+    r = dict(edit_period=None, edit_mode_no=None, period=None, mode_no=None)
+    if k == "period_aug":
+        old = np.array(gen.period, dtype=float)
+        c = op["c"]
+        e = old * c if op["aug"] == "*=" else (old / c if op["aug"] == "/=" else old + c)
+        r["edit_period"] = r["period"] = e
+        if op["aug"] == "*=":
+            gen.period *= c
+        elif op["aug"] == "/=":
+            gen.period /= c
+        else:
+            gen.period += c
+    elif k == "period_edit":
+        e = np.array(gen.period, dtype=float)
+        i = op["idx"] % len(e)
+        e[i] = op["value"]
+        r["edit_period"] = r["period"] = e
+        per = gen.period
+        per[i] = op["value"]
+        gen.period = per
+    elif k == "period_same":
+        r["period"] = np.array(gen.period, dtype=float)
+        gen.period = gen.period
+    elif k == "period_as":
+        v = unhex(op["period"])
+        how = op["as"]
+        if how == "array":
+            r["period"] = v
+            gen.period = np.array(v)
+        elif how == "tuple":
+            r["period"] = v
+            gen.period = tuple(float(x) for x in v)
+        elif how == "scalar":
+            r["period"] = v[:1]
+            gen.period = float(v[0])
+        else:
+            r["period"] = v[:1]
+            gen.period = np.float64(v[0])
+    elif k == "mode_no_edit":
+        e = [int(x) for x in gen.mode_no]
+        i = op["idx"] % len(e)
+        e[i] = int(op["value"])
+        r["edit_mode_no"] = r["mode_no"] = e
+        m = gen.mode_no
+        m[i] = int(op["value"])
+        gen.mode_no = m
+    elif k == "mode_no_same":
+        r["mode_no"] = [int(x) for x in gen.mode_no]
+        gen.mode_no = gen.mode_no
+    elif k == "mode_no_as":
+        mn = [int(x) for x in op["mode_no"]]
+        how = op["as"]
+        if how == "array":
+            r["mode_no"] = mn
+            gen.mode_no = np.array(mn)
+        elif how == "tuple":
+            r["mode_no"] = mn
+            gen.mode_no = tuple(mn)
+        else:
+            r["mode_no"] = mn[:1]
+            gen.mode_no = mn[0]
+    else:
+        raise KeyError(k)
+    return r
+
+
 def gen_history(rng, dim, n_ops, classes):
     """operations on one Fourier generator; model changes keep the class (in-place setters or a new object)"""
     ops = []
     for _ in range(n_ops):
+        if rng.random() < 0.4:
+            ops.append(gen_api_op(rng, dim))
+            continue
         u = rng.random()
         if u < 0.18:
             ops.append(dict(op="period", period=hexl(gen_period(rng, dim))))
@@ -365,9 +463,27 @@ def gen_history(rng, dim, n_ops, classes):
 def apply_op(gen, model, op):
     """run one operation on the implementation; returns (model object now owned by the caller, update arguments
     as the model sees them, exception name or None)"""
-    args = dict(model=None, seed=False, period=None, mode_no=None)
+    args = dict(model=None, seed=False, period=None, mode_no=None, edit_period=None, edit_mode_no=None)
     exc = None
     k = op["op"]
+    if k in API_OPS:
+        # expected values first (from copies), so that they are known even when the setter raises
+        old_p = np.array(gen.period, dtype=float)
+        old_m = [int(x) for x in gen.mode_no]
+        try:
+            r = do_api_op(gen, op)
+        except ValueError:
+            exc = "ValueError"
+            r = dict(edit_period=None, edit_mode_no=None, period=None, mode_no=None)
+            if k == "mode_no_edit":
+                e = list(old_m)
+                e[op["idx"] % len(e)] = int(op["value"])
+                r["edit_mode_no"] = r["mode_no"] = e
+            elif k == "mode_no_as":
+                mn = [int(x) for x in op["mode_no"]]
+                r["mode_no"] = mn if op["as"] != "scalar" else mn[:1]
+        args.update(r)
+        return model, args, exc
     try:
         if k == "period":
             args["period"] = unhex(op["period"])
@@ -437,7 +553,7 @@ def state_matches(drv_state, gen, tags):
 
 def corr_histories(ctx, drv, rng, tie_bad):
     from gstools.field.generator import Fourier
-    n_hist = 400 if ctx.tier == "thorough" else 50
+    n_hist = 1200 if ctx.tier == "thorough" else 300
     n_ops_total = 0
     tags = {}
     for h in range(n_hist):
@@ -466,6 +582,10 @@ def corr_histories(ctx, drv, rng, tie_bad):
                 md, mtag, mpar, manis = model_sig(args["model"], tags)
             else:
                 md, mtag, mpar, manis = 0, 0, np.zeros(0), np.zeros(0)
+            if args.get("edit_period") is not None:
+                drv.call("f_edit_period", np.asarray(args["edit_period"], dtype=float))
+            if args.get("edit_mode_no") is not None:
+                drv.call("f_edit_mode_no", iarr(args["edit_mode_no"]))
             st = drv.call("f_update", args["model"] is not None, ("n", md), ("z", mtag), mpar, manis, bool(args["seed"]),
                           args["period"] is not None,
                           np.asarray(args["period"] if args["period"] is not None else [], dtype=float),
@@ -513,7 +633,7 @@ def run_probe_config(case):
 
 
 def probe_configs(ctx, rng):
-    n = 3000 if ctx.tier == "thorough" else 300
+    n = 4000 if ctx.tier == "thorough" else 900
     worst_seen = 0.0
     for i in range(n):
         dim = int(rng.integers(1, 4))
@@ -578,15 +698,28 @@ def run_probe_history(case):
                     want = fill(op["mode_no"], dim)
             elif k == "seed":
                 srf.generator.update(seed=op["seed"])
+            elif k in API_OPS:
+                r = do_api_op(srf.generator, op)             # through srf.generator, as a user would
+                if r["mode_no"] is not None:
+                    want = fill(r["mode_no"], dim)
         except ValueError:
             # a rejected operation (odd mode_no, nothing given): post-exception states are outside the property
             return worst, det
+        gen = srf.generator
+        # periodicity with the period the generator REPORTS
         pts = [unhex(p) for p in case["pts"]]
-        pts = [p * np.asarray(srf.generator.period, dtype=float)[d] for d, p in enumerate(pts)]
+        pts = [p * np.asarray(gen.period, dtype=float)[d] for d, p in enumerate(pts)]
         w, d_ = periodic_check(srf, pts, range(dim), case["qs"])
-        have = [int(x) for x in srf.generator.mode_no]
+        have = [int(x) for x in gen.mode_no]
         if have != want:
             w, d_ = float("inf"), dict(mode_no_requested=want, mode_no_stored=have)
+        # the grid must be the one of a freshly built generator with the reported settings and the field's model
+        from gstools.field.generator import Fourier
+        fresh = Fourier(srf.model, period=np.array(gen.period, dtype=float), mode_no=[int(x) for x in gen.mode_no], seed=1)
+        if not (near(fresh._delta_k, gen._delta_k) and np.shape(fresh._modes) == np.shape(gen._modes)
+                and near(fresh._modes, gen._modes)):
+            w, d_ = float("inf"), dict(d_ or {}, stale_grid=True, reported_period=hexl(gen.period), reported_mode_no=have,
+                                        delta_k=hexl(gen._delta_k), fresh_delta_k=hexl(fresh._delta_k))
         if w > worst:
             worst, det = w, dict(d_ or {}, after_step=step_no, op=k)
         if worst > 1.0:
@@ -595,7 +728,7 @@ def run_probe_history(case):
 
 
 def probe_histories(ctx, rng):
-    n = 800 if ctx.tier == "thorough" else 90
+    n = 2500 if ctx.tier == "thorough" else 600
     hostile = hostile_arange(rng)
     ctx.notes.append("float-arange-hostile (count, period) pairs used in history probes: %d" % len(hostile))
     worst_seen = 0.0
@@ -605,7 +738,8 @@ def probe_histories(ctx, rng):
         period = gen_period(rng, dim)
         mode_no = gen_mode_no(rng, dim, big=False)
         ops = [o for o in gen_history(rng, dim, int(rng.integers(2, 7)), ANALYTIC)
-               if o["op"] not in ("nothing", "same_model", "tiny") and o.get("period", 1) != [] and min(o.get("mode_no", [2])) >= 0]
+               if o["op"] not in ("nothing", "same_model", "tiny") and o.get("period", 1) != [] and min(o.get("mode_no", [2])) >= 0
+               and not (o["op"] == "mode_no_edit" and o["value"] % 2)]
         tagk = "random"
         if i >= n:
             # a count/period pair on which a float-step arange has one entry too many, then a period / model change
@@ -614,7 +748,7 @@ def probe_histories(ctx, rng):
             mode_no = [nmo] + fill(mode_no, dim)[1:]
             first = [dict(op="period", period=hexl(gen_period(rng, dim))),
                      dict(op="len_scale", len_scale=float(np.exp(rng.uniform(-0.5, 2))))][i % 2]
-            ops = [first] + [o for o in ops if o["op"] not in ("mode_no",) and "mode_no" not in o]
+            ops = [first] + [o for o in ops if not o["op"].startswith("mode_no") and "mode_no" not in o]
             cfg["anis"] = [1.0] * (dim - 1)
             tagk = "arange-hostile"
         pts = [rng.uniform(-2.0, 2.0, 4) for _ in range(dim)]        # in units of the current period
@@ -630,7 +764,7 @@ def probe_histories(ctx, rng):
             continue
         worst_seen = max(worst_seen, worst if np.isfinite(worst) else 0.0)
         if worst > 1.0:
-            kind = "mode-count" if det and "mode_no_stored" in det else "not-periodic"
+            kind = "mode-count" if det and "mode_no_stored" in det else ("stale-grid" if det and det.get("stale_grid") else "not-periodic")
             ctx.violation("probe: periodicity after an update history (%s)" % tagk,
                           "after %s the field is not periodic with the current settings: %s" % (det.get("op"), json.dumps(det)),
                           dict(case, detail=det), key="probe:history:%s:%s" % (tagk, kind))
